@@ -326,6 +326,13 @@ func genSMsg(t *rapid.T, o SGenOpts) SMsg {
 		}
 		m.Frags = append(m.Frags, f)
 	}
+	if rapid.IntRange(0, 39).Draw(t, "many_empty_frags") == 17 {
+		// a long run of payload-less fragments (more than bufio tolerates
+		// without progress) somewhere in the message
+		run := make([]int, rapid.SampledFrom([]int{101, 130, 260}).Draw(t, "empty_run"))
+		at := rapid.IntRange(0, len(m.Frags)).Draw(t, "empty_run_at")
+		m.Frags = append(append(append([]int(nil), m.Frags[:at]...), run...), m.Frags[at:]...)
+	}
 	m.TrailEmpty = rapid.IntRange(0, 9).Draw(t, "trailempty") == 0
 	maxCtl := 2
 	if o.CtlHeavy {
